@@ -4,6 +4,7 @@ import (
 	"encoding/json"
 	"fmt"
 	"net/netip"
+	"os"
 	"sort"
 	"strings"
 	"sync"
@@ -52,11 +53,12 @@ var c07Starts = map[string][]string{
 		}
 		return
 	}(),
-	"four-fails":  {"foundlive:A.1.a", "foundlive:F0", "foundlive:F1", "foundlive:F2", "track:A:fail", "track:A:fail", "track:A:fail", "track:A:fail"},
-	"credit-four": {"foundlive:A.1.a", "found:B.1.a", "tick:0", "ans:A:alive", "tick:0,0", "ans:A:alive", "ans:B:alive", "tick:0,0", "ans:A:alive"},
+	"mixed-subnets": {"foundlive:A.1.a", "foundlive:B.1.a", "foundlive:P.1.d"},
+	"four-fails":    {"foundlive:A.1.a", "foundlive:F0", "foundlive:F1", "foundlive:F2", "track:A:fail", "track:A:fail", "track:A:fail", "track:A:fail"},
+	"credit-four":   {"foundlive:A.1.a", "found:B.1.a", "tick:0", "ans:A:alive", "tick:0,0", "ans:A:alive", "ans:B:alive", "tick:0,0", "ans:A:alive"},
 }
 
-var c07StartOrder = []string{"empty", "full256", "almost-full", "ip-limit-minus-one", "four-fails", "credit-four"}
+var c07StartOrder = []string{"empty", "full256", "almost-full", "ip-limit-minus-one", "four-fails", "credit-four", "mixed-subnets"}
 
 func c07Pool(start string, thorough bool) (recs, ids []string, kinds []string) {
 	recs = []string{"A.1.a", "A.2.a", "A.2.b", "B.1.a", "X.1.b", "C.1.d", "D.1.a", "D.2.l"}
@@ -65,6 +67,10 @@ func c07Pool(start string, thorough bool) (recs, ids []string, kinds []string) {
 	if start == "ip-limit-minus-one" {
 		recs = []string{"A.1.a", "A.2.b", "H.1.b", "I.1.b", "I.1.l", "D.1.a", "C.1.d"}
 		ids = []string{"A", "H", "I", "G0"}
+	}
+	if start == "mixed-subnets" { // a refused move into a full /24, then more nodes of the old /24
+		recs = []string{"P.2.b", "P.2.l", "Q.1.e", "R.1.f", "A.2.d", "X.1.b"}
+		ids = []string{"A", "P", "Q", "R"}
 	}
 	if start == "full256" || start == "almost-full" {
 		ids = []string{"A", "B", "F0", "F16"}
@@ -139,7 +145,8 @@ func (t *tabEnv) enabled(o c07Obs, start string, thorough bool) []string {
 	for _, id := range ids {
 		evs = append(evs, "del:"+id)
 	}
-	evs = append(evs, "track:"+ids[0]+":ok", "track:"+ids[0]+":fail", "track:"+ids[0]+":ok:"+recs[len(recs)-1]+","+recs[3], "track:"+ids[len(ids)-1]+":fail", "refresh")
+	evs = append(evs, "track:"+ids[0]+":ok", "track:"+ids[0]+":fail", "track:"+ids[0]+":ok:"+recs[len(recs)-1]+","+recs[3], "track:"+ids[len(ids)-1]+":fail", "refresh",
+		"track:"+ids[0]+":ok:S.1.a", "found:S.1.a", "inbound:S.1.a") // the local node's own record, as a peer may report it
 	// ticks: which node each due list checks. Fillers are interchangeable, so the indices
 	// of pool nodes plus the first filler of each list are the representatives.
 	reps := func(list []enode.ID) []int {
@@ -419,6 +426,9 @@ func c07Run1(r *mc.Report, prop, start string, hist []string, thorough bool) (ca
 			if e := t.apply(ev); e != "" {
 				r.EngineError(fmt.Sprintf("replay of %v: %s", hist, e))
 				return
+			}
+			if os.Getenv("VERIF_DEBUG") != "" {
+				fmt.Fprintln(os.Stderr, "after", ev, ":", t.canon(t.observe(ids)))
 			}
 			if t.loopErr != "" {
 				break
